@@ -21,6 +21,42 @@ def cfgOfFlags (s : String) : Option Cfg :=
 
 def noSpaces (s : String) : String := String.ofList (s.toList.map fun c => if isSpaceC c then '_' else c)
 
+def clip (s : String) : String := if s.length > 48 then (s.take 48).toString ++ "…" else s
+
+/-- which literal is ill-typed: descends to the innermost value that does not fit its target type -/
+partial def whyNot (env : Env) (fuel : Nat) (cur : String) (e : GoExpr) (target : GoTy) : String :=
+  let leaf := "cannot-use:" ++ clip (stripWs (renderExpr cur e)) ++ ":as:" ++ clip (stripWs (renderTy cur target))
+  match e with
+  | .addr e' => (match norm env fuel target with | .ptr t => whyNot env fuel cur e' t | _ => leaf)
+  | .composite t fs =>
+    (match under env fuel (norm env fuel t) with
+      | some (.struct sfs) =>
+        (match fs.find? (fun (k, v) => match findGoField k sfs with
+            | some f => !assignable env fuel (exprTy env fuel v) f.ty
+            | none => true) with
+          | some (k, v) => (match findGoField k sfs with
+              | some f => k ++ ":" ++ whyNot env fuel cur v f.ty
+              | none => k ++ ":unknown-field")
+          | none => if firstDup (fs.map (·.1)) |>.isSome then "duplicate-field-in-literal" else leaf)
+      | _ => "composite-of-non-struct:" ++ clip (stripWs (renderTy cur t)))
+  | .toPtr t e' =>
+    if !typeOk env t then "type:" ++ clip (stripWs (renderTy cur t))
+    else if !assignable env fuel (exprTy env fuel e') t then whyNot env fuel cur e' t
+    else leaf
+  | .sliceLit t xs =>
+    (match xs.find? (fun x => !assignable env fuel (exprTy env fuel x) t) with
+      | some x => whyNot env fuel cur x t
+      | none => leaf)
+  | _ => leaf
+
+def diagnoseCtor (env : Env) (fuel : Nat) (cur : String) : List GoDecl → Option String
+  | [] => none
+  | d :: ds =>
+    if declOk env fuel cur d then diagnoseCtor env fuel cur ds
+    else match d with
+      | .ctor n r b => some (n ++ ":literal:" ++ whyNot env fuel cur b (.ptr (.named cur r)))
+      | _ => none
+
 def godeclReply (ss : Schemas) (pkg : String) (cfg : Cfg) : String :=
   let env := emitEnv cfg ss
   let cur := fmtPkg pkg
@@ -29,10 +65,13 @@ def godeclReply (ss : Schemas) (pkg : String) (cfg : Cfg) : String :=
   | some site => "crash " ++ noSpaces site ++ " -"
   | none =>
     let text := stripWs (renderDecls cur ds)
-    let fuel := envDeclCount env + 1
+    let fuel := checkFuel env
     if namesOk ds && declsOk env fuel cur ds then "welltyped - " ++ text
     else
-      let why := match diagnosePkg env cur with | some w => w | none => "?"
+      let why := match diagnosePkg env cur with
+        | some w => if (w.splitOn ":literal:").length > 1 then
+            (match diagnoseCtor env fuel cur ds with | some w' => w' | none => w) else w
+        | none => "?"
       "illtyped " ++ noSpaces why ++ " " ++ text
 
 def godeclLine (rest : String) : IO String := do
